@@ -18,7 +18,7 @@ def run(tier: str, seed: int):
                 + list(F.fam_faults(1, 3, max_faults=1, reqs='sinks', kinds=('raise',), fault_exc='filter', types='TX')))
         serial = list(F.fam_faults(1, 3, max_faults=2, kinds=('raise',))) + list(F.fam_faults(1, 3, max_faults=1, kinds=('raise',), fault_exc='exit', reqs='sinks')) + list(F.fam_faults(1, 3, max_faults=1, kinds=('raise',), fault_exc='filter', types='TX', reqs='sinks'))
         rule = 'all DAG shapes n<=4 x requested subsets x single fault (raise|died) x continue_on_failure; n<=3 fault sets <=2 x pre-cached subsets; every completion order (batch<=2)'
-        e3c = list(F.fam_e3(F.fam_faults(1, 3, max_faults=1, reqs='sinks'), workers=(1, 2), die_exit0=(False, True))) + list(F.fam_e3(F.fam_faults(2, 3, max_faults=1, reqs='sinks', kinds=('raise',), fault_exc='exit'), workers=(2,), liveness=False)) + list(F.fam_e3(F.fam_faults(1, 3, max_faults=1, reqs='sinks', kinds=('raise',), fault_exc='filter', types='TX'), workers=(2,), liveness=False)) + list(F.fam_e3(F.fam_faults(2, 3, max_faults=1, reqs='all', cofs=(True,)), workers=(2,), backends=('fork',), monitor=True, liveness=False))
+        e3c = list(F.fam_e3(F.fam_faults(1, 3, max_faults=1, reqs='sinks'), workers=(1, 2), die_exit0=(False, True))) + list(F.fam_e3(F.fam_faults(2, 2, max_faults=1, reqs='sinks', kinds=('died',)), workers=(2,), backends=('fork',), die_exit0=(-36, 3), liveness=False)) + list(F.fam_e3(F.fam_faults(2, 2, max_faults=1, reqs='all', pre=True, bust=(True,)), workers=(2,), liveness=False)) + list(F.fam_e3(F.fam_faults(2, 3, max_faults=1, reqs='sinks', kinds=('raise',), fault_exc='exit'), workers=(2,), liveness=False)) + list(F.fam_e3(F.fam_faults(1, 3, max_faults=1, reqs='sinks', kinds=('raise',), fault_exc='filter', types='TX'), workers=(2,), liveness=False)) + list(F.fam_e3(F.fam_faults(2, 3, max_faults=1, reqs='all', cofs=(True,)), workers=(2,), backends=('fork',), monitor=True, liveness=False))
         # more ready work than workers when the failure is reported (continue_on_failure=False must not start it)
         e3c += list(F.fam_e3(F.fam_faults(3, 3, max_faults=1, reqs='all', cofs=(False,), kinds=('raise',)), workers=(1,), backends=('fork',)))
     else:
@@ -27,5 +27,5 @@ def run(tier: str, seed: int):
                 + list(F.fam_faults(2, 4, max_faults=2, reqs='sinks', pre=True)))
         serial = list(F.fam_faults(1, 4, max_faults=2, kinds=('raise',)))
         rule = 'n<=4 fault sets <=2 batch<=3; n=5 single faults; pre-cache x faults n<=4'
-        e3c = list(F.fam_e3(F.fam_faults(1, 3, max_faults=2), workers=(1, 2, None), die_exit0=(False, True))) + list(F.fam_e3(F.fam_faults(4, 4, max_faults=1, reqs='sinks'), workers=(2,), liveness=False))
+        e3c = list(F.fam_e3(F.fam_faults(1, 3, max_faults=2), workers=(1, 2, None), die_exit0=(False, True, -36, 3))) + list(F.fam_e3(F.fam_faults(2, 3, max_faults=1, reqs='all', pre=True, bust=(True,)), workers=(2,), liveness=False)) + list(F.fam_e3(F.fam_faults(4, 4, max_faults=1, reqs='sinks'), workers=(2,), liveness=False))
     return run_e2_property('C10', tier, seed, cfgs, serial_configs=serial, e3_configs=e3c, hash_slices=([('faults3', 1)] if tier == 'quick' else [('faults3', 1), ('faults3', 2), ('faults4', 1)]), real_cases=list(F.fam_real(F.real_bases('faults'), workers=(1, 2))), rule=rule, assumptions=ASSUME)
